@@ -99,12 +99,12 @@ class Gen5(gen.Gen):
             # the rest equal - an answer stored for one setting must not be served for another
             _, _, d, u, f = self.rng.choice(same_v)
             if self.rng.random() < 0.6:
-                d = self.rng.choice([x for x in ("FORWARD", "ANY", "BACKWARD") if x != d])
+                d = self.rng.choice([x for x in ("FORWARD", "ANY", "BACKWARD", "TRUE", "FALSE") if x != d])
             else:
                 u = self.rng.choice([x for x in ("NEIGHBOR", "NONNEIGHBOR", "ERROR") if x != u])
         elif r < 0.45:
             # the full product, not only the hand-picked keys
-            d = self.rng.choice(["FORWARD", "ANY", "BACKWARD"])
+            d = self.rng.choice(["FORWARD", "ANY", "BACKWARD", "TRUE", "FALSE"])
             u = self.rng.choice(["NEIGHBOR", "NONNEIGHBOR", "ERROR"])
             f = self.rng.choice(["none", "none", "accept", "tagged_edge", "even_vertex", "not_directed"])
         else:
